@@ -219,7 +219,7 @@ Fixpoint ascii_index (c : ascii) (l : list ascii) : option nat :=
   end.
 
 Definition nt_set (c : ascii) : list nat :=
-  flat_map (fun x => match ascii_index x nt_alphabet with Some i => [i] | None => [] end) (iupac c).
+  flat_map (fun x => match ascii_index x nt_alphabet with Some i => [i] | None => [] end) (iupac (upper c)).
 
 Fixpoint transpose {A} (n : nat) (rows : list (list A)) : list (list A) :=
   match n with
